@@ -320,6 +320,7 @@ _MIRRORED_COMPARATORS = {
     ast.Gt: ast.Lt,
     ast.GtE: ast.LtE,
 }
+_MIRRORED_CHECKS = {Lt: Gt, Le: Ge, Gt: Lt, Ge: Le}
 
 SAFE_DECORATORS_FOR_ARGSPEC_TO_RETVAL = [KnownValue(asynq.asynq), KnownValue(property)]
 if sys.version_info < (3, 11):
@@ -3643,6 +3644,10 @@ class NameCheckVisitor(node_visitor.ReplacingNodeVisitor):
             return Constraint(varname, ConstraintType.predicate, positive, predicate)
         else:
             positive_operator, negative_operator, ext = COMPARATOR_TO_OPERATOR[type(op)]
+            if not is_right and ext is not None:
+                # The constrained value is the right operand: `c < x` tells us
+                # that x > c, so the check that holds for x is the mirrored one.
+                ext = _MIRRORED_CHECKS[ext]
 
             def predicate_func(value: Value, positive: bool) -> Optional[Value]:
                 op = positive_operator if positive else negative_operator
